@@ -6,7 +6,7 @@ Model of `util.convert_type` (Python `int()` / `float()` on ASCII text), of `str
 `Mod.serialize` (proforma_dataclasses.py:22-42). Mathlib-free.
 
 Domain statement (what is modelled exactly and what is carried opaquely):
-* `int()`: surrounding ASCII whitespace (code points 9-13, 28-32), one optional sign, decimal digits with
+* `int()`: surrounding ASCII whitespace (code points 9-13 and 32), one optional sign, decimal digits with
   single underscores between digits. Exact for every ASCII string shorter than CPython's 4300-digit limit.
 * `float()`: same whitespace / sign / underscore rules, `inf`, `infinity`, `nan` (any case), decimal
   mantissa with optional fraction and exponent. The value is kept as the text of Python's `repr`:
@@ -39,11 +39,18 @@ def Err.valueFamily : Err → Bool
   | .value => true
   | _ => false
 
+instance {ε α : Type} [DecidableEq ε] [DecidableEq α] : DecidableEq (Except ε α) := fun a b =>
+  match a, b with
+  | .ok x, .ok y => if h : x = y then isTrue (by rw [h]) else isFalse (by intro h'; cases h'; exact h rfl)
+  | .error x, .error y => if h : x = y then isTrue (by rw [h]) else isFalse (by intro h'; cases h'; exact h rfl)
+  | .ok _, .error _ => isFalse (by intro h; cases h)
+  | .error _, .ok _ => isFalse (by intro h; cases h)
+
 /-! ### Python `int()` / `float()` -/
 
-/-- ASCII part of `Py_UNICODE_ISSPACE` -/
+/-- the ASCII characters `int()` / `float()` strip (measured on CPython 3.12: 9-13 and 32; 28-31 are not) -/
 def isPySpace (c : Char) : Bool :=
-  (9 ≤ c.toNat && c.toNat ≤ 13) || (28 ≤ c.toNat && c.toNat ≤ 32)
+  (9 ≤ c.toNat && c.toNat ≤ 13) || c.toNat = 32
 
 def pyStrip (s : List Char) : List Char :=
   ((s.dropWhile isPySpace).reverse.dropWhile isPySpace).reverse
